@@ -1,8 +1,183 @@
+import RichModel.Model.Theme
+import RichModel.Model.ConfigParser
 import RichModel.Drv.Proto
-/- Driver handlers for property C20 (stub: filled in when the model is built). -/
-namespace RichModel.Drv.C20
-open RichModel RichModel.Proto
+/- Driver handlers for property C20 (theme stack, get_style, Theme.config / from_file).
 
-def handlers : List (String × (List String → String)) := []
+Styles are ids (σ := Nat).  Every request carries a table `names` of all strings it mentions
+(style names and style definitions); dicts travel as `i=s,i=s` (i = index into `names`, s = style id).
+`Style.parse` is given as a table aligned with `names`: `v<id>` | `S` (StyleSyntaxError) | `X` (other
+exception).  A string the table does not cover parses to the sentinel id `missId`, which never
+equals an implementation answer (so it surfaces as a mismatch, never as agreement).
+-/
+namespace RichModel.Drv.C20
+open RichModel RichModel.Proto RichModel.Theme RichModel.Cfg
+
+def missId : Nat := 999999999
+
+abbrev D := Dict Nat
+
+def splitNE (s : String) (sep : String) : List String := if s.isEmpty then [] else s.splitOn sep
+
+def decDict (names : List Name) (s : String) : D :=
+  (splitNE s ",").filterMap (fun kv =>
+    match kv.splitOn "=" with
+    | [k, v] => some (names.getD (decNat k) ['?'], decNat v)
+    | _ => none)
+
+def decPTable (names : List Name) (s : String) : Parse Nat :=
+  let tbl : List String := splitNE s " "
+  fun n =>
+    match names.idxOf? n with
+    | none => .ok missId
+    | some i =>
+      match (tbl.getD i "?").toList with
+      | 'v' :: ds => .ok (decNat (String.ofList ds))
+      | ['S'] => .error .syntax
+      | ['X'] => .error .other
+      | _ => .ok missId
+
+def encName (names : List Name) (n : Name) : String :=
+  match names.idxOf? n with
+  | some i => toString i
+  | none => "L" ++ encStr n
+
+/-- dicts are dumped sorted by name (Python `sorted(d.items())`). -/
+def encDict (names : List Name) (d : D) : String :=
+  ",".intercalate ((sortItems d).map (fun p => encName names p.1 ++ "=" ++ toString p.2))
+
+def encPErr : PErr → String
+  | .syntax => "err:StyleSyntaxError"
+  | .other => "err:Other"
+
+def decSV (names : List Name) (s : String) : SV Nat :=
+  match s.toList with
+  | '#' :: ds => .style (decNat (String.ofList ds))
+  | '~' :: ds => .str (names.getD (decNat (String.ofList ds)) ['?'])
+  | _ => .str ['?']
+
+def decItems (names : List Name) (s : String) : Option (List (Name × SV Nat)) :=
+  if s == "-" then none
+  else some ((splitNE s ",").filterMap (fun kv =>
+    match kv.splitOn "=" with
+    | [k, v] => some (names.getD (decNat k) ['?'], decSV names v)
+    | _ => none))
+
+/-! ### histories -/
+
+inductive Tok where
+  | push (i : Bool) (d : D)
+  | pop
+  | raise
+  | use (i : Bool) (d : D)
+  | endUse
+
+def decTok (names : List Name) (s : String) : Option Tok :=
+  match s.toList with
+  | 'P' :: i :: ':' :: r => some (.push (i == '1') (decDict names (String.ofList r)))
+  | 'U' :: i :: ':' :: r => some (.use (i == '1') (decDict names (String.ofList r)))
+  | ['O'] => some .pop
+  | ['R'] => some .raise
+  | ['E'] => some .endUse
+  | _ => none
+
+/-- recursive descent over the token list; `fuel` = number of tokens. Returns ops and the rest
+(after the closing `E` when inside a block). -/
+def parseOps : Nat → List Tok → List (Op Nat) × List Tok
+  | 0, ts => ([], ts)
+  | _, [] => ([], [])
+  | fuel + 1, t :: ts =>
+    match t with
+    | .endUse => ([], ts)
+    | .push i d => let (ops, r) := parseOps fuel ts; (.push ⟨d⟩ i :: ops, r)
+    | .pop => let (ops, r) := parseOps fuel ts; (.pop :: ops, r)
+    | .raise => let (ops, r) := parseOps fuel ts; (.raise :: ops, r)
+    | .use i d =>
+      let (body, r) := parseOps fuel ts
+      let (ops, r') := parseOps fuel r
+      (.use ⟨d⟩ i body :: ops, r')
+
+def encGet : Except GErr Nat → String
+  | .ok s => toString s
+  | .error .missingStyle => "M"
+  | .error .other => "X"
+
+def decNS (names : List Name) (s : String) : NS Nat :=
+  match s.toList with
+  | 's' :: ds => .style (decNat (String.ofList ds))
+  | 'n' :: ds => .str (names.getD (decNat (String.ofList ds)) ['?'])
+  | _ => .str ['?']
+
+def runProbe (names : List Name) (parse : Parse Nat) (st : Stack Nat) (p : String) : String :=
+  match p.splitOn ">" with
+  | [a] => encGet (getStyle parse st (decNS names a) none)
+  | [a, d] => encGet (getStyle parse st (decNS names a) (some (decNS names d)))
+  | _ => "bad-probe"
+
+def encSnap (names : List Name) (parse : Parse Nat) (probes : List String) (st : Stack Nat) : String :=
+  "/".intercalate (st.entries.map (encDict names)) ++ "#" ++ encDict names st.bound ++ "#" ++
+    " ".intercalate (probes.map (runProbe names parse st))
+
+def encOutcome : Outcome → String
+  | .normal => "normal"
+  | .raised .themeStackError => "raised:ThemeStackError"
+  | .raised .indexError => "raised:IndexError"
+  | .raised .userError => "raised:UserError"
+
+def encCfgErr : CfgErr → String
+  | .missingSectionHeader => "err:MissingSectionHeaderError"
+  | .duplicateSection => "err:DuplicateSectionError"
+  | .duplicateOption => "err:DuplicateOptionError"
+  | .parsing => "err:ParsingError"
+  | .noSection => "err:NoSectionError"
+  | .interpolationSyntax => "err:InterpolationSyntaxError"
+
+def handlers : List (String × (List String → String)) := [
+  ("theme_new", fun a => match a with
+    | [names, ptable, defaults, items, inherit] =>
+      let names := decStrList names
+      match Theme.new (decDict names defaults) (decPTable names ptable) (decItems names items) (decBool inherit) with
+      | .ok t => "ok:" ++ encDict names t.styles
+      | .error e => encPErr e
+    | _ => "bad-args"),
+  ("theme_hist", fun a => match a with
+    | [flag, names, ptable, base, ops, probes] =>
+      let names := decStrList names
+      let parse := decPTable names ptable
+      let toks := (splitNE ops ";").filterMap (decTok names)
+      let (h, _) := parseOps (toks.length + 1) toks
+      let st0 : Stack Nat := Stack.init ⟨decDict names base⟩
+      let probes := splitNE probes ","
+      let (_, out, tr) := traceOps (decBool flag) h st0
+      encOutcome out ++ ";" ++ "|".intercalate ((st0 :: tr).map (encSnap names parse probes))
+    | _ => "bad-args"),
+  ("theme_config", fun a => match a with
+    -- σ := index into `names` of the style's `str()`
+    | [names, dict] =>
+      let names := decStrList names
+      encStr (Theme.config (fun i => names.getD i ['?']) ⟨decDict names dict⟩)
+    | _ => "bad-args"),
+  ("cfg_items", fun a => match a with
+    | [lower, interp, text] =>
+      match cfgItems (decBool lower) (decBool interp) (decStr text) with
+      | .ok items => "ok:" ++ toString items.length ++ ":" ++ ",".intercalate (items.map (fun p => encStr p.1 ++ "=" ++ encStr p.2))
+      | .err e => encCfgErr e
+      | .unmodelled => "unmodelled"
+    | _ => "bad-args"),
+  ("theme_from_file", fun a => match a with
+    | [lower, interp, names, ptable, defaults, text, inherit] =>
+      let names := decStrList names
+      match fromFile (decDict names defaults) (decPTable names ptable) (decBool lower) (decBool interp) (decStr text) (decBool inherit) with
+      | .ok t => "ok:" ++ encDict names t.styles
+      | .err (.cfg e) => encCfgErr e
+      | .err (.parse e) => encPErr e
+      | .unmodelled => "unmodelled"
+    | _ => "bad-args"),
+  ("cfg_isspace", fun a => match a with
+    | [cp] => encBool (isSpace (Char.ofNat (decNat cp)))
+    | _ => "bad-args"),
+  ("cfg_strip", fun a => match a with
+    | [s] => encStr (strip (decStr s))
+    | _ => "bad-args")
+]
 
 end RichModel.Drv.C20
